@@ -512,7 +512,7 @@ def check_raw_interpolation(ctx, model):
 # ---- token-level constructs: the round trip in the small -------------------------------------------------------------------------------------------
 
 SIMPLE_NT = {'string': ['abc', '1 day', '5', '1.5 hours', '-1 day', "it's", '0.5'], 'quote_string': ['abc', '5'], 'dquote_string': ['abc', 'a b'],
-             'id': ['abc', 'col1'], 'integer': [5, 0], 'float': [1.5]}
+             'id': ['abc', 'col1'], 'integer': [5, 0], 'float': [1.5, 1e-07, 1e+16, 2.5e+19]}
 WRAP = {'expr': ['SELECT'], 'constant': ['SELECT'], 'identifier': ['SELECT']}
 
 
@@ -691,6 +691,15 @@ def run(ctx):
             ctx.ob('C01.codec', f'{rule}:{cons}', False, f.msg, file=f.file, line=f.line, witness=f.witness)
         else:
             ctx.ob('C01.codec', f'{rule}:{cons}', True)
+    # numeric constants (C07's table): the printed text of a number is one numeric literal of the library's lexer that reads back as the value
+    from . import C07
+    sub = Ctx('C07', ctx.src, ctx.tier)
+    C07.check_number_printer(sub)
+    ctx.setcount('number_probes', sub.counts.get('number_probes', 0))
+    ctx.ob('C01.codec', 'number-printer:all', True, '')
+    for f in sub.findings:
+        ctx.ob('C01.codec', f'number-printer:{f.construct}', False, f.msg, file=f.file, line=f.line, witness=f.witness)
+    ctx.floor('number_probes', 20)
     ctx.floor('paren_productions', 6)
     ctx.floor('printer_classes', 60)
     ctx.floor('keyword_words', 380)
